@@ -59,7 +59,8 @@ GenCSpec == GenCInit /\ [][FALSE]_gvars
 BombF == [flag |-> 1, len |-> 64, ilen |-> 67108864, body |-> "msg", id |-> 9, corrupt |-> FALSE]
 LieF  == [flag |-> 0, len |-> 1073741824, ilen |-> 1073741824, body |-> "msg", id |-> 9, corrupt |-> FALSE, lie |-> TRUE]
 GenDInit ==
-  /\ \E p \in {"connect", "grpc", "grpcweb"}, sd \in {"client", "handler"}, atk \in {"bomb", "lie", "lieflag", "maxlimit"}, pos \in 1..2 :
+  /\ \E p \in {"connect", "grpc", "grpcweb"}, sd \in {"client", "handler"},
+        atk \in {"bomb", "lie", "lieflag", "maxlimit", "maxlimitz", "limit4g", "limit4g16", "limit4g16z"}, pos \in 1..2 :
        LET pre == [i \in 1..(pos - 1) |-> LMsg(20, i)]
            tr == IF p = "grpc" /\ sd = "client" THEN "ok" ELSE "none"
            tf == IF p = "grpc" \/ sd = "handler" THEN <<>> ELSE <<EndOK(p)>>
@@ -70,14 +71,20 @@ GenDInit ==
           ELSE IF atk = "lieflag"   \* the same lie in an envelope flagged as the protocol's terminator
           THEN InitWith(Base(p, sd, 131072, "none", pre \o <<[LieF EXCEPT !.flag = TFlag(p), !.body = "endok"]>>,
                              BLen(pre) + 13, "eof", "none") @@ [bomb |-> TRUE])
-          ELSE InitWith(Base(p, sd, 0, "none", pre \o <<LMsg(40, 9)>> \o tf, 2000000000, "eof", tr) @@ [maxlimit |-> TRUE])
+          \* huge limits -- the largest int, 2^32, 2^32 + 16 -- are limits like any other: small messages pass, plain
+          \* ("none") or compressed ("...z")
+          ELSE LET z == atk \in {"maxlimitz", "limit4g16z"}
+                   big == IF atk \in {"maxlimit", "maxlimitz"} THEN "maxint" ELSE IF atk = "limit4g" THEN "4g" ELSE "4g16" IN
+               InitWith(Base(p, sd, 0, IF z THEN "gzip" ELSE "none",
+                             pre \o <<IF z THEN LCMsg(20, 40, 9) ELSE LMsg(40, 9)>> \o tf, 2000000000, "eof", tr)
+                        @@ [maxlimit |-> TRUE, biglimit |-> big])
   /\ script = <<>> /\ ew = FALSE
 \* the largest possible limit on the unary Connect path (no envelope)
 GenDRawInit ==
   /\ \E sd \in {"client", "handler"}, enc \in {"none", "gzip"} :
        InitWith([proto |-> "connect", side |-> sd, shape |-> "unary", raw |-> TRUE, reuse |-> FALSE, limit |-> 0, enc |-> enc,
                  frames |-> <<IF enc = "gzip" THEN LCMsg(20, 40, 9) ELSE LMsg(40, 9)>>, cut |-> 2000000000, tail |-> "eof",
-                 trailers |-> "none", maxlimit |-> TRUE])
+                 trailers |-> "none", maxlimit |-> TRUE, biglimit |-> "maxint"])
   /\ script = <<>> /\ ew = FALSE
 \* the error body of a non-200 unary Connect response: a bomb under a limit
 GenDErrBodyInit ==
